@@ -20,11 +20,11 @@ def placement(demo_path, meta):
     rel = None
     if m:
         rel = m.group(1)
-        rel = re.sub(r'^/tmp/wt/C\d+/', '', rel)
+        rel = re.sub(r'^/tmp/wt\d*/C\d+/', '', rel)
         rel = re.sub(r'^<worktree>/', '', rel)
         rel = rel.rstrip(';,.')
     if (not rel or not rel.endswith('.go')) and meta:
-        m2 = re.search(r'cp\s+\S+\s+(?:/tmp/wt/C\d+/)?(\S+\.go)', meta.get('demo_cmd', ''))
+        m2 = re.search(r'cp\s+\S+\s+(?:/tmp/wt\d*/C\d+/)?(\S+\.go)', meta.get('demo_cmd', ''))
         if m2:
             rel = m2.group(1)
     return rel
